@@ -96,6 +96,24 @@ VARIANTS = [
     ("psbt_size: the sighash byte counted with int(bool())", "btclib.psbt.psbt_size", lambda s: s.replace("    return SCHNORR_SIG_SIZE + (1 if psbt_in.sig_hash_type else 0)\n", "    return SCHNORR_SIG_SIZE + int(bool(psbt_in.sig_hash_type))\n", 1)),
     ("message: the recorded position renamed", "btclib.p2p.message", lambda s: s.replace("        start = stream.tell()\n", "        began_at = stream.tell()\n").replace("            stream.seek(start)\n", "            stream.seek(began_at)\n")),
     ("esplora: the lenient decode with the default codec", "btclib.fetch.esplora", lambda s: s.replace('payload.decode("utf-8", errors="replace")', 'payload.decode(errors="replace")', 1)),
+    # --- benign rewrites of the statements the older shape rows read ---
+    ("curve_group: the curve equation with a local for y squared", "btclib.curves.curve_group", lambda s: s.replace("        return self._y2(Q[0]) == (Q[1] * Q[1] % self.p)\n", "        y_squared = Q[1] * Q[1] % self.p\n        return self._y2(Q[0]) == y_squared\n", 1)),
+    ("number_theory: the blinding factor chosen in an if statement", "btclib.number_theory", lambda s: s.replace("    b = 1 + secrets.randbelow(m - 1) if m > 1 else 1\n", "    if m > 1:\n        b = 1 + secrets.randbelow(m - 1)\n    else:\n        b = 1\n", 1)),
+    ("taproot: the private key negated under an if", "btclib.script.taproot", lambda s: s.replace("    internal_prvkey = internal_prvkey if has_even_y else secp256k1.n - internal_prvkey\n", "    if not has_even_y:\n        internal_prvkey = secp256k1.n - internal_prvkey\n", 1)),
+    ("taproot: the parity of the private key's point read with & 1", "btclib.script.taproot", lambda s: s.replace("    has_even_y = P[1] % 2 == 0\n", "    has_even_y = not P[1] & 1\n", 1)),
+    ("taproot: the output key's parity in a local", "btclib.script.taproot", lambda s: s.replace('    return Q[0].to_bytes(32, "big"), Q[1] % 2\n', '    parity = Q[1] % 2\n    return Q[0].to_bytes(32, "big"), parity\n', 1)),
+    ("bip39: the entropy bits by integer arithmetic", "btclib.mnemonic.bip39", lambda s: s.replace("    bits = int(len(cs_entropy) * 32 / 33)\n", "    bits = len(cs_entropy) * 32 // 33\n", 1)),
+    ("proof_of_work: the exponent as a ceiling division", "btclib.block.proof_of_work", lambda s: s.replace("    exponent = (value.bit_length() + 7) // 8\n", "    exponent = -(-value.bit_length() // 8)\n", 1)),
+    ("proof_of_work: the timespan clamped in one expression", "btclib.block.proof_of_work", lambda s: s.replace("    actual_timespan = max(actual_timespan, POW_TARGET_TIMESPAN // 4)\n    actual_timespan = min(actual_timespan, POW_TARGET_TIMESPAN * 4)\n", "    actual_timespan = min(max(actual_timespan, POW_TARGET_TIMESPAN // 4), POW_TARGET_TIMESPAN * 4)\n", 1)),
+    ("psbt: the finalizer's hash type read under an if", "btclib.psbt.psbt", lambda s: s.replace("    hash_type = signature[-1] if len(signature) == 65 else DEFAULT\n", "    hash_type = DEFAULT\n    if len(signature) == 65:\n        hash_type = signature[-1]\n", 1)),
+    ("miniscript: the pk_k size with the contexts the other way round", "btclib.descriptors.miniscript", lambda s: s.replace("        size = 33 if node.context == TAPSCRIPT else 34\n", "        size = 34 if node.context != TAPSCRIPT else 33\n", 1)),
+    ("miniscript: the pk_h size as its sum", "btclib.descriptors.miniscript", lambda s: s.replace("        size = 3 + 21\n", "        size = 24\n", 1)),
+    ("block: the witness commitment preimage in a local", "btclib.block.block", lambda s: s.replace("        witness_commitment_ = _HF(witness_root + witness_stack[0])\n", "        preimage = witness_root + witness_stack[0]\n        witness_commitment_ = _HF(preimage)\n", 1)),
+    ("tx_in: the witness weight added through a local", "btclib.tx.tx_in", lambda s: s.replace("        weight += witness._serialized_size()\n", "        witness_weight = witness._serialized_size()\n        weight += witness_weight\n", 1)),
+    ("fee: the spend size chosen under an if", "btclib.fee", lambda s: s.replace("    size += _SEGWIT_SPEND_SIZE if is_segwit(script_pub_key) else _SPEND_SIZE\n", "    if is_segwit(script_pub_key):\n        size += _SEGWIT_SPEND_SIZE\n    else:\n        size += _SPEND_SIZE\n", 1)),
+    ("silent_payments: the sender's parity read with & 1", "btclib.silent_payments", lambda s: s.replace("        if is_p2tr(bytes_from_octets(script_pub_key)) and mult(a)[1] % 2:\n", "        if is_p2tr(bytes_from_octets(script_pub_key)) and mult(a)[1] & 1:\n", 1)),
+    ("psbt musig2: the sighash suffix under an explicit comparison", "btclib.psbt.musig2", lambda s: s.replace("    if psbt_in.sig_hash_type:\n", "    if psbt_in.sig_hash_type not in (None, 0):\n", 1)),
+    ("sec_point: the compressed y chosen under an if", "btclib.curves.sec_point", lambda s: s.replace("y_Q if prefix == 2 else ec.p - y_Q", "ec.p - y_Q if prefix != 2 else y_Q", 1)),
     ("psbt_in: two from_dict arguments passed by keyword", "btclib.psbt.psbt_in", lambda s: s.replace('            dict_["unknown"],\n            dict_["previous_tx_id"],', '            unknown=dict_["unknown"],\n            previous_tx_id=dict_["previous_tx_id"],', 1) if False else s.replace('            dict_["taproot_internal_key"],\n            dict_["taproot_merkle_root"],\n', '            dict_["taproot_internal_key"],  # the key\n            dict_["taproot_merkle_root"],  # the root\n', 1)),
 ]
 
